@@ -718,4 +718,225 @@ theorem framing {v : Ver} : ∀ (ds : List Delivery) (lf0 : Bytes),
     · simp only [List.flatMap_cons]
       exact AllFiled.append hF1 hF2
 
+theorem AllFiled.mem_right {fs rs} (h : AllFiled fs rs) {r} (hr : r ∈ rs) : ∃ f ∈ fs, FiledFor f r := by
+  induction h with
+  | nil => simp at hr
+  | cons h _ ih =>
+    simp only [List.mem_cons] at hr
+    rcases hr with hr | hr
+    · subst hr; exact ⟨_, by simp, h⟩
+    · obtain ⟨f, hf, hfr⟩ := ih hr
+      exact ⟨f, by simp [hf], hfr⟩
+
+/-! ## store bookkeeping -/
+
+theorem Store.mem_put {s : Store} {n : Nat} {b : Bytes} {p : Nat × Bytes} (h : p ∈ s.put n b) :
+    p = (n, b) ∨ p ∈ s := by
+  simp only [Store.put, List.mem_cons, List.mem_filter] at h
+  rcases h with h | h
+  · exact Or.inl h
+  · exact Or.inr h.1
+
+theorem Store.key_put {s : Store} (n : Nat) (b : Bytes) {k : Nat} (h : ∃ m, (k, m) ∈ s) :
+    ∃ m, (k, m) ∈ s.put n b := by
+  obtain ⟨m, hm⟩ := h
+  by_cases hk : k = n
+  · subst hk; exact ⟨b, by simp [Store.put]⟩
+  · exact ⟨m, by simp [Store.put, hm, hk]⟩
+
+theorem Store.mem_del {s : Store} {id : Nat} {p : Nat × Bytes} (h : p ∈ s.del id) : p ∈ s := by
+  simp only [Store.del, List.mem_filter] at h; exact h.1
+
+theorem Store.mem_del_of_ne {s : Store} {id k : Nat} {m : Bytes} (h : (k, m) ∈ s) (hk : k ≠ id) :
+    (k, m) ∈ s.del id := by
+  simp [Store.del, h, hk]
+
+theorem Store.get_some {s : Store} {id : Nat} {m : Bytes} (h : s.get id = some m) : (id, m) ∈ s := by
+  simp only [Store.get, Option.map_eq_some_iff] at h
+  obtain ⟨p, hp, hm⟩ := h
+  have h1 := List.find?_some hp
+  have h2 := List.mem_of_find?_eq_some hp
+  simp only [beq_iff_eq] at h1
+  obtain ⟨a, b⟩ := p
+  simp only at h1 hm
+  subst h1; subst hm; exact h2
+
+theorem Store.get_none {s : Store} {id : Nat} (h : s.get id = none) (m : Bytes) : (id, m) ∉ s := by
+  simp only [Store.get, Option.map_eq_none_iff, List.find?_eq_none] at h
+  intro hm
+  exact h (id, m) hm (by simp)
+
+theorem Store.get_of_key {s : Store} {id : Nat} (h : ∃ m, (id, m) ∈ s) : ∃ m, s.get id = some m := by
+  cases hg : s.get id with
+  | some m => exact ⟨m, rfl⟩
+  | none => obtain ⟨m, hm⟩ := h; exact absurd hm (Store.get_none hg m)
+
+/-! ## sessions -/
+
+theorem readsOf_append (a b : List Ev) : readsOf (a ++ b) = readsOf a ++ readsOf b := by
+  induction a with
+  | nil => rfl
+  | cons e t ih => cases e <;> simp [readsOf, ih]
+
+/-- everything the read loop has filed so far, and its buffer, as a function of the reads alone -/
+def hist (v : Ver) (evs : List Ev) : List (Nat × Bytes) × Bytes := filings v [] (readsOf evs)
+
+theorem hist_snoc_read (v : Ver) (hs : List Ev) (ch : Bytes) :
+    hist v (hs ++ [.read ch]) =
+      ((hist v hs).1 ++ (bufStep v (hist v hs).2 ch).2.toList, (bufStep v (hist v hs).2 ch).1) := by
+  simp [hist, readsOf_append, readsOf, filings_append, filings]
+
+theorem hist_snoc_other (v : Ver) (hs : List Ev) (e : Ev) (he : ∀ ch, e ≠ .read ch) :
+    hist v (hs ++ [e]) = hist v hs := by
+  cases e with
+  | read ch => exact absurd rfl (he ch)
+  | _ => simp [hist, readsOf_append, readsOf]
+
+structure Inv (v : Ver) (hs : List Ev) (c : Client) : Prop where
+  buf : c.st.buf = (hist v hs).2
+  store_sub : ∀ p ∈ c.st.store, p ∈ (hist v hs).1
+  res_sub : ∀ id m, (id, some m) ∈ c.results → (id, m) ∈ (hist v hs).1
+  keys : ∀ f ∈ (hist v hs).1, (∃ m, (f.1, m) ∈ c.st.store) ∨ (∃ m, (f.1, some m) ∈ c.results)
+  ids : c.issued = List.range' Gen.Netconf.initialMessageID c.issued.length
+  next : c.st.nextId = Gen.Netconf.initialMessageID + c.issued.length
+
+theorem Inv.of_hist_eq {v : Ver} {hs hs' : List Ev} {c : Client} (he : hist v hs' = hist v hs)
+    (h : Inv v hs c) : Inv v hs' c :=
+  ⟨by rw [he]; exact h.buf, by rw [he]; exact h.store_sub, by rw [he]; exact h.res_sub,
+   by rw [he]; exact h.keys, h.ids, h.next⟩
+
+theorem inv_init (v : Ver) : Inv v [] init := by
+  refine ⟨rfl, ?_, ?_, ?_, rfl, rfl⟩ <;> simp [init, hist, readsOf, filings]
+
+theorem step_inv {v : Ver} {hs : List Ev} {c : Client} (e : Ev) (h : Inv v hs c) :
+    Inv v (hs ++ [e]) (step v c e) := by
+  cases e with
+  | call =>
+    apply Inv.of_hist_eq (hist_snoc_other v hs _ (by intro ch; simp))
+    simp only [step]
+    cases hp : c.pending with
+    | some id => simp only; exact ⟨h.buf, h.store_sub, h.res_sub, h.keys, h.ids, h.next⟩
+    | none =>
+      simp only [buildRequest]
+      refine ⟨h.buf, h.store_sub, h.res_sub, h.keys, ?_, ?_⟩
+      · have hi := h.ids
+        have hn := h.next
+        simp only [Client.issued, hp, Option.toList, List.append_nil] at hi hn ⊢
+        simp only [List.length_append, List.length_singleton, List.range'_concat, Nat.one_mul]
+        rw [← hi, hn]
+      · have hn := h.next
+        simp only [Client.issued, hp, Option.toList, List.append_nil] at hn ⊢
+        simp only [List.length_append, List.length_singleton]
+        omega
+  | read ch =>
+    have hh : Inv v hs c := h
+    refine ⟨?_, ?_, ?_, ?_, ?_, ?_⟩ <;> simp only [hist_snoc_read, step, readStep, ← h.buf]
+    · intro p hp
+      cases hf : (bufStep v c.st.buf ch).2 with
+      | none =>
+        simp only [hf, St.file] at hp
+        simp [h.store_sub p hp]
+      | some f =>
+        obtain ⟨n, m⟩ := f
+        simp only [hf, St.file] at hp
+        rcases Store.mem_put hp with hp | hp
+        · simp [hp]
+        · simp [h.store_sub p hp]
+    · intro id m hm
+      simp [h.res_sub id m hm]
+    · intro f hf
+      simp only [List.mem_append] at hf
+      rcases hf with hf | hf
+      · rcases h.keys f hf with hk | hk
+        · left
+          cases hq : (bufStep v c.st.buf ch).2 with
+          | none => simpa [St.file] using hk
+          | some q => obtain ⟨n, m⟩ := q; exact Store.key_put n m hk
+        · exact Or.inr hk
+      · left
+        cases hq : (bufStep v c.st.buf ch).2 with
+        | none => simp [hq] at hf
+        | some q =>
+          obtain ⟨n, m⟩ := q
+          simp only [hq, Option.toList, List.mem_singleton] at hf
+          subst hf
+          exact ⟨m, by simp [St.file, Store.put]⟩
+    · exact h.ids
+    · exact h.next
+  | poll =>
+    apply Inv.of_hist_eq (hist_snoc_other v hs _ (by intro ch; simp))
+    simp only [step]
+    cases hp : c.pending with
+    | none => simp only; exact ⟨h.buf, h.store_sub, h.res_sub, h.keys, h.ids, h.next⟩
+    | some id =>
+      simp only [fetch]
+      cases hg : c.st.store.get id with
+      | none =>
+        simp only
+        refine ⟨h.buf, fun p hp' => h.store_sub p (Store.mem_del hp'), h.res_sub, ?_,
+          by simpa [Client.issued, hp] using h.ids, by simpa [Client.issued, hp] using h.next⟩
+        intro f hf
+        rcases h.keys f hf with ⟨m, hm⟩ | hk
+        · left
+          refine ⟨m, Store.mem_del_of_ne hm ?_⟩
+          intro hk; rw [hk] at hm; exact Store.get_none hg m hm
+        · exact Or.inr hk
+      | some m =>
+        simp only
+        have hmem := Store.get_some hg
+        refine ⟨h.buf, fun p hp' => h.store_sub p (Store.mem_del hp'), ?_, ?_, ?_, ?_⟩
+        · intro id' m' hm'
+          simp only [List.mem_append, List.mem_singleton, Prod.mk.injEq, Option.some.injEq] at hm'
+          rcases hm' with hm' | ⟨h1, h2⟩
+          · exact h.res_sub id' m' hm'
+          · subst h1; subst h2; exact h.store_sub _ hmem
+        · intro f hf
+          rcases h.keys f hf with ⟨m', hm'⟩ | ⟨m', hm'⟩
+          · by_cases hk : f.1 = id
+            · right; exact ⟨m, by simp [hk]⟩
+            · left; exact ⟨m', Store.mem_del_of_ne hm' hk⟩
+          · right; exact ⟨m', by simp [hm']⟩
+        · have hi := h.ids
+          simp only [Client.issued, hp, Option.toList] at hi ⊢
+          simpa using hi
+        · have hn := h.next
+          simp only [Client.issued, hp, Option.toList] at hn ⊢
+          simpa using hn
+  | expire =>
+    apply Inv.of_hist_eq (hist_snoc_other v hs _ (by intro ch; simp))
+    simp only [step]
+    cases hp : c.pending with
+    | none => simp only; exact ⟨h.buf, h.store_sub, h.res_sub, h.keys, h.ids, h.next⟩
+    | some id =>
+      simp only
+      refine ⟨h.buf, h.store_sub, ?_, ?_, ?_, ?_⟩
+      · intro id' m' hm'
+        simp only [List.mem_append, List.mem_singleton, Prod.mk.injEq] at hm'
+        rcases hm' with hm' | ⟨_, h2⟩
+        · exact h.res_sub id' m' hm'
+        · cases h2
+      · intro f hf
+        rcases h.keys f hf with hk | ⟨m', hm'⟩
+        · exact Or.inl hk
+        · right; exact ⟨m', by simp [hm']⟩
+      · have hi := h.ids
+        simp only [Client.issued, hp, Option.toList] at hi ⊢
+        simpa using hi
+      · have hn := h.next
+        simp only [Client.issued, hp, Option.toList] at hn ⊢
+        simpa using hn
+
+theorem run_inv {v : Ver} : ∀ (evs hs : List Ev) (c : Client), Inv v hs c →
+    Inv v (hs ++ evs) (run v c evs) := by
+  intro evs
+  induction evs with
+  | nil => intro hs c h; simpa [run] using h
+  | cons e evs ih =>
+    intro hs c h
+    have := ih (hs ++ [e]) (step v c e) (step_inv e h)
+    simpa [run] using this
+
+theorem run_init_inv (v : Ver) (evs : List Ev) : Inv v evs (run v init evs) := by
+  simpa using run_inv evs [] init (inv_init v)
+
 end Scrapli.Netconf.Store
